@@ -93,7 +93,11 @@ func CreateSQL(name string, t *Table) string {
 	for i, c := range t.Cols {
 		s := fmt.Sprintf("c%d %s", i+1, typeSQL(c))
 		if c.HasGen {
-			s += " GENERATED ALWAYS AS (" + ExprSQL(c.Gen, w) + ") STORED"
+			if c.Virtual {
+				s += " GENERATED ALWAYS AS (" + ExprSQL(c.Gen, w) + ") VIRTUAL"
+			} else {
+				s += " GENERATED ALWAYS AS (" + ExprSQL(c.Gen, w) + ") STORED"
+			}
 		}
 		if c.NotNull {
 			s += " NOT NULL"
@@ -187,6 +191,14 @@ func SQL(s *Stmt, w int) string {
 			head = "REPLACE INTO"
 		}
 		out := fmt.Sprintf("%s %s (%s) VALUES %s", head, s.T, colNames(s.Cols), strings.Join(rows, ", "))
+		if s.Sel != nil {
+			var es []string
+			for _, e := range s.Sel.Exprs {
+				es = append(es, ExprSQL(e, w))
+			}
+			src := &Stmt{Where: s.Sel.Where, Order: s.Sel.Order, Limit: s.Sel.Limit}
+			out = fmt.Sprintf("%s %s (%s) SELECT %s FROM %s%s", head, s.T, colNames(s.Cols), strings.Join(es, ", "), s.Sel.From, tailSQL(src, w))
+		}
 		if s.Mode == "odku" {
 			out += " ON DUPLICATE KEY UPDATE " + setSQL(s.Odku, w)
 		}
@@ -219,7 +231,7 @@ func SQL(s *Stmt, w int) string {
 
 // ---- constructors
 
-func Lit(v Value) *Expr       { return sqlast.Lit(v) }
+func Lit(v Value) *Expr         { return sqlast.Lit(v) }
 func ColRef(i int, c Col) *Expr { return sqlast.Col(0, i, c.CollTag()) }
 func ValuesRef(i, w int, c Col) *Expr {
 	return sqlast.Col(0, w+i, c.CollTag())
@@ -227,6 +239,17 @@ func ValuesRef(i, w int, c Col) *Expr {
 
 func Insert(t, mode string, cols []int, rows [][]Cell, odku []SetItem) *Stmt {
 	return (&Stmt{K: "insert", T: t, Mode: mode, Cols: cols, Rows: rows, Odku: odku, Limit: -1}).Fix()
+}
+
+// InsertSelect: INSERT / INSERT IGNORE / REPLACE INTO t (cols) SELECT exprs FROM from WHERE .. ORDER BY .. LIMIT ..
+func InsertSelect(t, mode string, cols []int, sel *Select) *Stmt {
+	if sel.Where == nil {
+		sel.Where = sqlast.True()
+	}
+	if sel.Order == nil {
+		sel.Order = []sqlast.Ord{}
+	}
+	return (&Stmt{K: "insert", T: t, Mode: mode, Cols: cols, Sel: sel, Limit: -1}).Fix()
 }
 func Update(t string, ignore bool, set []SetItem, where *Expr, order []sqlast.Ord, limit int) *Stmt {
 	return (&Stmt{K: "update", T: t, Ignore: ignore, Set: set, Where: where, Order: order, Limit: limit}).Fix()
